@@ -186,7 +186,8 @@ pub fn run_c16(ctx: &Ctx) {
             for b in a..paths.len() {
                 let ka = Key::for_owned_schema_path(paths[a], &to_owned(t));
                 let kb = Key::for_owned_schema_path(paths[b], &to_owned(t));
-                if ka.const_cmp(&kb) != (ka.to_bytes() == kb.to_bytes()) || (ka == kb) != (ka.to_bytes() == kb.to_bytes()) {
+                let consistent = trap(|| ka.const_cmp(&kb) == (ka.to_bytes() == kb.to_bytes()) && (ka == kb) == (ka.to_bytes() == kb.to_bytes()));
+                if consistent != Ok(true) {
                     ctx.violation("key-comparison", format!("const_cmp / == disagree with byte equality for keys {} and {}", hex(&ka.to_bytes()), hex(&kb.to_bytes())), i as u64, json!({"schema": t, "paths": [paths[a], paths[b]]}));
                 }
             }
@@ -282,6 +283,24 @@ pub fn run_c16(ctx: &Ctx) {
         }
     }
     ctx.class("deep-chain / long-name sensitivity cases", m);
+    // Key helpers on keys that differ in exactly one byte: comparison must see every byte position
+    for base in [[0u8; 8], [0xFF; 8], [1, 2, 3, 4, 5, 6, 7, 8]] {
+        for pos in 0..8 {
+            for mask in [0x01u8, 0x80, 0xFF] {
+                m += 1;
+                let mut other = base;
+                other[pos] ^= mask;
+                let r = trap(|| {
+                    let (a, b) = unsafe { (Key::from_bytes(base), Key::from_bytes(other)) };
+                    (a.to_bytes() == base && b.to_bytes() == other, a.const_cmp(&b) || b.const_cmp(&a) || a == b, a.const_cmp(&a) && b.const_cmp(&b) && a == a)
+                });
+                match r {
+                    Ok((true, false, true)) => {}
+                    other_r => ctx.violation("key-comparison", format!("keys {} and {} (differing in byte {pos}): (bytes round-trip, compare equal, self-equal) = {:?}", hex(&base), hex(&other), other_r), (4u64 << 40) | pos as u64, json!({"a": hex(&base), "b": hex(&other)})),
+                }
+            }
+        }
+    }
     // typed corpus: genuinely const-evaluated keys
     for (name, s, ckeys) in crate::checks::schema_typed::corpus_const_keys() {
         let t = from_static(s);
